@@ -2,6 +2,8 @@
 from .. import core, hist
 from ..gen import KEY_POOL, PREFIX, hx, rng_for
 
+EXTRA_PROP_MODULES = [("KB.Props.OrderC06", "KB.OrderC06")]
+
 ENGINES = ["memkv", "badger", "tikv"]
 
 
